@@ -21,7 +21,7 @@ def c16(ck):
         return
     ck.trusted = ["Coq 8.16.1 kernel", "tr/addr.py (prefix tables of varlink_connect / Listener::new, activation_listener constants, the environment set by varlink_exec)",
                   "harness/src/bin/h_addr.rs, h_actsrv.rs", "modelled not verified: fork/exec, descriptor passing, sockets (decided by running the transports)"]
-    ck.rule = ("transport in {unix path, unix path;mode=..., unix:@abstract, tcp:127.0.0.1:port, with_activate(cmd), with_bridge(cmd)} x request sequences of C01; environment matrix for "
+    ck.rule = ("transport in {unix path, unix path;mode=..., unix:@abstract, tcp:127.0.0.1:port, with_activate(cmd), with_bridge(cmd), activation by a foreign activator passing a blocking or an O_NONBLOCK listening socket} x request sequences of C01; environment matrix for "
                "LISTEN_FDS / LISTEN_PID / LISTEN_FDNAMES (absent, wrong pid, garbage, 0/1/several descriptors, named / unnamed) against a probing server process; address strings from a "
                "scheme/garbage generator against varlink_connect and Listener::new; every constructor under a 15 s watchdog; non-trivial = all; distinct by case")
     # VH_NOISY: the activated test service logs a line on its standard output and one on its standard error
@@ -33,7 +33,7 @@ def c16(ck):
     allk = [k for k in kinds() if k != "upgrade"]
     for _ in range(4 if quick else 30):
         seqs.append([(rng.choice(allk), rng.choice(list(ALL_FLAGS))) for _ in range(rng.randint(1, 8))])
-    transports = ["unixpath", "unixmode", "unixstale", "unixmodestale", "abstract", "tcp", "activate", "bridge"]
+    transports = ["unixpath", "unixmode", "unixstale", "unixmodestale", "abstract", "tcp", "activate", "bridge", "foreignact", "foreignactnb"]
     for si, seq in enumerate(seqs):
         reqs = [make(k, f, {"n": i}) for i, (k, f) in enumerate(seq)]
         s = stream_of(reqs)
@@ -108,6 +108,19 @@ def c16(ck):
                 ck.failures.append({"what": "the same request sequence yields a different reply sequence over this transport", "transport": t,
                                     "sequence": ["%s/%s" % kf for kf in seq], "got": unhx(f["out"]).decode("utf-8", "replace")[:500],
                                     "in_memory": out_of(whole["w%d" % si]).decode("utf-8", "replace")[:500]})
+            if t.startswith("foreignact"):
+                ok2 = False
+                again = f.get("again2", "")
+                if again and not again.startswith("err:"):
+                    try:
+                        y = canon_reply_stream(unhx(again))
+                        ok2 = len(y) == 1 and "interfaces" in (y[0].get("parameters") or {})
+                    except Exception:
+                        ok2 = False
+                if not ok2 or f.get("alive") != "1":
+                    ck.failures.append({"what": "a service activated by a foreign activator (listening socket passed as descriptor 3, %s) did not keep serving: a second "
+                                                "client got no GetInfo reply or the service had exited" % ("O_NONBLOCK set" if t.endswith("nb") else "blocking"),
+                                        "second_client": again[:200], "service_alive": f.get("alive"), "connect_error": f.get("connect_err")})
             if t == "activate":
                 rep = dict(x.split("=", 1) for x in unhx(f.get("report", "-")).decode().split() if "=" in x)
                 okk = (rep.get("pid") == f.get("childpid") and rep.get("LISTEN_PID") == rep.get("pid") and rep.get("LISTEN_FDS") == "1"
